@@ -67,6 +67,18 @@ impl HetTable {
         reader.seek(SeekFrom::Start(offset))?;
 
         // Read the compressed/encrypted data
+        // The size comes from the (untrusted) header: it must fit into the file before a
+        // buffer of that size is allocated
+        let stream_len = reader.seek(SeekFrom::End(0))?;
+        if offset
+            .checked_add(compressed_size)
+            .is_none_or(|end| end > stream_len)
+        {
+            return Err(Error::invalid_format(
+                "HET table extends beyond the end of the archive",
+            ));
+        }
+        reader.seek(SeekFrom::Start(offset))?;
         let mut data = vec![0u8; compressed_size as usize];
         reader.read_exact(&mut data)?;
 
@@ -153,6 +165,13 @@ impl HetTable {
 
         // No need to validate signature/version - they're in the extended header
         // which we already validated above
+
+        // The name hash width drives shifts and masks in every lookup
+        if !(8..=64).contains(&hash_entry_size) {
+            return Err(Error::invalid_format(format!(
+                "Invalid HET hash entry size: {hash_entry_size} bits"
+            )));
+        }
 
         // Extract hash table and file indices - data starts after extended header
         let data_start = 12; // Extended header size
